@@ -1,10 +1,10 @@
 SPECIFICATION Spec
 CONSTANTS
-    TaskIds = {t1, t2}
-    Shapes <- MCShapesQuick
+    TaskIds = {t1}
+    Shapes <- MCShapesDeep
     Batches <- MCBatchesQuick
     DefaultRP = "rp1"
-    MaxWrites = 2
+    MaxWrites = 4
     MaxLifecycle = 3
     Dedup = TRUE
     FailCleansUp = TRUE
